@@ -139,6 +139,29 @@ func (k *c10k) localFieldNonNeg(al *ssa.Alloc, f int) bool {
 			if r.Addr != ssa.Value(al) {
 				return false
 			}
+			if call, isCall := r.Val.(*ssa.Call); isCall {
+				// ... or by a helper of the repository that returns such a local
+				g := call.Common().StaticCallee()
+				if g == nil || g.Blocks == nil || !k.c.P.IsRepoFunc(g) || g.Signature.Results().Len() != 1 {
+					return false
+				}
+				n := 0
+				for _, ret := range ssau.ReturnsOf(g) {
+					rl, ok := ret.Results[0].(*ssa.UnOp)
+					if !ok || rl.Op != token.MUL {
+						return false
+					}
+					src, ok := rl.X.(*ssa.Alloc)
+					if !ok || !k.localFieldNonNeg(src, f) {
+						return false
+					}
+					n++
+				}
+				if n == 0 {
+					return false
+				}
+				continue
+			}
 			ld, ok := r.Val.(*ssa.UnOp)
 			if !ok || ld.Op != token.MUL {
 				return false
